@@ -451,6 +451,13 @@ def early_exit_correspondence(ctx, tmpdir):
     for j, (st, out, err, argv, teelines) in zip(jobs, res):
         ci, ch, n, b, sched = j
         ctx.count(("early", tuple(ch), n, b, sched)); ctx.dist("early-exit-model")
+        if st == "harness-error":   # the binary could not be started (e.g. build cache evicted mid-run): not an observation of mlr
+            ctx.dist("early-exit-harness-error")
+            continue
+        if st == "hang":            # confirm with a long timeout before calling it a hang (loaded machine)
+            env2 = {"MLR_VERIF_SCHED": str(sched)} if sched is not None else {}
+            inp2 = "".join("i=%d\n" % k for k in range(1, n + 1)).encode()
+            st, out, err = mlr_run(ctx, ["--records-per-batch", str(b)] + argv, inp2, timeout=240, env=env2)
         if st != 0:
             ctx.violation({"class": "early-exit-run-failed", "chain": argv, "status": st, "stderr_tail": err[-300:].decode("latin1"), "input_records": n,
                            "main_flags": ["--records-per-batch", str(b)]})
